@@ -199,15 +199,18 @@ CLAIMS["C12"] = {
 }
 CLAIMS["C13"] = {
     "level": "other",
-    "text": "Partial (text readers; the binary TRR reader is outside). read_and_process_content with xyz_reader and lammpstrj_reader runs "
+    "text": "Partial (text readers + the size guards of the TRR reader; struct decoding of TRR is outside). read_and_process_content with xyz_reader and lammpstrj_reader runs "
             "on a fake file holding the written trajectory (1..2 atoms, a 12-atom count case, 2 frames; 3 thorough) cut at every token "
             "boundary, inside every token (every character prefix of structural tokens; floats: a truncated token parses to a fresh "
             "symbolic value) and before every newline, polled 1..2 times with growing cuts and then complete: no exception, never more "
             "frames than completely written ones, finally every frame exactly once and in order, every returned value equal to the written "
-            "symbolic value (the solver would otherwise pick a differing truncated value), boxes included.",
+            "symbolic value (the solver would otherwise pick a differing truncated value), boxes included. TRR: "
+            "GromacsRunner.get_gromacs_frames / read_remaining_trr with symbolic header (<= 1000) and data sizes and an arbitrary "
+            "non-decreasing file size at every look (LIA): every header/data read lies inside what is on disk at that moment, only whole "
+            "frames are consumed, frames come once and in order, and after the program exited all frames are returned.",
     "design_ref": "DESIGN.md section 3 C13 (H13)",
     "note": "str.split/readline/int/float trusted; a proper prefix or the remaining suffix of a number parses to an arbitrary other number; "
-            "append-only writer; GromacsRunner.get_gromacs_frames / read_trr_* (struct-based) not covered",
+            "append-only writer; read_trr_header/get_data replaced by extent-recording stubs (byte order / precision decoding not covered)",
     "technique": TECH,
 }
 PENDING = "check not built yet in this revision (see DESIGN.md for the plan); no claim is made"
